@@ -248,6 +248,7 @@ func RunScenario(t *testing.T, sc *Scenario) *Outcome {
 			out.Elapsed = time.Since(begin)
 			w.mu.Lock()
 			w.Returned = true
+			w.finished.Store(true)
 			w.mu.Unlock()
 			cancel()
 			synctest.Wait()
